@@ -498,7 +498,9 @@ func engineStopRule(c *Ctx, id string) {
 	}
 }
 
-func isRangeDone(e cfgx.Edge) bool { return strings.HasPrefix(e.To().Comment, "rangeiter.done") || strings.HasPrefix(e.To().Comment, "rangeindex.done") }
+func isRangeDone(e cfgx.Edge) bool {
+	return strings.HasPrefix(e.To().Comment, "rangeiter.done") || strings.HasPrefix(e.To().Comment, "rangeindex.done")
+}
 
 func loopDoneReaches(loop map[*ssa.BasicBlock]bool, r *ssa.Return) bool {
 	if loop == nil {
